@@ -57,7 +57,11 @@ int _vnadata_convert_to_fz0(vnadata_internal_t *vdip)
 			return -1;
 		    }
 		    for (int port = 0; port < vdip->vdi_p_allocation; ++port) {
-			clfpp[findex][port] = vdip->vdi_z0_vector[port];
+			if (findex < vdip->vdi_vd.vd_frequencies) {
+			    clfpp[findex][port] = vdip->vdi_z0_vector[port];
+			} else {
+			    clfpp[findex][port] = VNADATA_DEFAULT_Z0;
+			}
 		    }
 		}
 	    }
